@@ -222,6 +222,25 @@ def run(v, tier, seed, replay):
                 fails.append((jd_meta[k], "the proved decoder reads the real bytes as %r; the records are %r" % (jo[k][:300], jo[k + 1][:300])))
             else:
                 decoded_ok += 1
+    # one reporter, two batches: the first while nothing listens on the agent's port (lost, as UDP allows), the second once the
+    # agent is up — every record of the second batch is transmitted (an error left over from the first batch must not eat it)
+    late_cases = 0
+    if ok and not replay and not fails:
+        rr = r.fork()
+        late = []
+        for k in (1, 3, 7):
+            b1 = [dict(G.gen_record(rr.fork(), i, "a%d" % i), span=i + 1, props=[("k", "v")], events=[]) for i in range(2)]
+            b2 = [dict(G.gen_record(rr.fork(), i, "b%d" % i), span=i + 11, props=[("k", "v%d" % i)], events=[]) for i in range(k)]
+            late.append((b1, b2))
+        l2 = ["jaegerLate %s %s %s" % (G.hx(svc), G.wire_records(b1), G.wire_records(b2)) for b1, b2 in late]
+        rc, o2, _ = C.run_lines(C.bin_path("fh-rep"), "report", l2)
+        for (b1, b2), out in zip(late, o2 + ["<missing>"] * (len(late) - len(o2))):
+            late_cases += 1
+            bad = "jaeger reporter panicked" if out == "panic" else check_jaeger(b2, out)
+            if bad:
+                v.violation("second batch through a reporter whose first batch met a closed agent port: " + bad,
+                            {"reporter": "jaeger", "first_batch_to_closed_port": b1, "batch": b2, "implementation": out[:3000]})
+                break
     for ci, bad in fails[:3]:
         v.violation(bad, {"reporter": cases[ci][0], "batch": cases[ci][1], "request": lines[ci][:3000],
                           "implementation": impl[ci][:3000] if impl and ci < len(impl) else None, "model": model[ci][:3000] if model and ci < len(model) else None})
@@ -247,6 +266,7 @@ def run(v, tier, seed, replay):
         "samples": [{"reporter": w, "records": len(b), "first": (G.wire_record(b[0])[:200] if b else None)} for w, b in cases[:5]],
         "traces_validated_against_impl": len(cases) if impl is not None else 0, "batches_per_reporter": per, "records": recs,
         "correspondence_mismatches": len(mism), "oracle_failures": len(fails), "real_datagrams_decoded_by_proved_decoder": decoded_ok,
+        "late_agent_cases": late_cases, "reporter_reuse": "one JaegerReporter per service for all batches of the run",
     }
     v.assumptions = ["records satisfy begin+duration < 2^64 (every record a collector cycle produces does; OpenTelemetryReporter::convert overflows otherwise — D11)",
                      "Datadog: start/duration are i64 on the wire (values >= 2^63 wrap, a limit of the format as implemented); meta order is the hash map's and is compared as a map",
